@@ -328,7 +328,7 @@ func (v *Verifier) detObligations(prop string) ([]detResult, []string) {
 	for _, t := range trs {
 		names = append(names, t.Name)
 		fns := v.closureOf(t.Fn)
-		var globalHits, nondetHits, mapHits, concHits []string
+		var globalHits, nondetHits, mapHits, concHits, aliasHits []string
 		for _, f := range fns {
 			for _, b := range f.Blocks {
 				for _, ins := range b.Instrs {
@@ -347,6 +347,11 @@ func (v *Verifier) detObligations(prop string) ([]detResult, []string) {
 							}
 						}
 					case *ssa.Store:
+						if ia, ok := x.Addr.(*ssa.IndexAddr); ok {
+							if from := storeOwned(ia.X, map[ssa.Value]bool{}); from != "" {
+								aliasHits = append(aliasHits, fmt.Sprintf("%s writes an element of the byte slice returned by %s (memory owned by the store / its caches: the write is visible outside the transaction and not rolled back)", f.Name(), from))
+							}
+						}
 						if g := globalRoot(x.Addr); g != nil {
 							if _, ok := mut[g]; ok {
 								globalHits = append(globalHits, fmt.Sprintf("%s writes %s.%s", f.Name(), pkgShort(g.Pkg.Pkg.Path()), g.Name()))
@@ -374,6 +379,7 @@ func (v *Verifier) detObligations(prop string) ([]detResult, []string) {
 			out = append(out, detResult{Name: fmt.Sprintf("det@%s#%s", t.Name, kind), OK: len(hits) == 0, Detail: strings.Join(dedupe(hits), "; "), Tags: tags})
 		}
 		mk("globals", globalHits, []string{"C01", "C03"})
+		mk("store-memory", aliasHits, []string{"C01", "C03"})
 		if prop != "C03" {
 			mk("nondet-sources", nondetHits, []string{"C01"})
 			mk("map-order", mapHits, []string{"C01"})
@@ -538,4 +544,40 @@ func (v *Verifier) genesisObligations() []detResult {
 		out = append(out, detResult{Name: fmt.Sprintf("gen@%s#footprint", m), OK: len(hits) == 0, Detail: fmt.Sprintf("%d prefixes written by module %s; ", len(written), m) + strings.Join(hits, "; "), Tags: []string{"C18"}})
 	}
 	return out
+}
+
+
+// storeOwned: v is (a view of) a byte slice handed out by KVStore.Get or an iterator's Key/Value; returns the producing call.
+func storeOwned(v ssa.Value, seen map[ssa.Value]bool) string {
+	if seen[v] {
+		return ""
+	}
+	seen[v] = true
+	switch x := v.(type) {
+	case *ssa.Call:
+		n := ""
+		if x.Call.IsInvoke() {
+			n = x.Call.Method.Name()
+			t := x.Call.Value.Type().String()
+			if (n == "Get" && strings.Contains(t, "KVStore")) || ((n == "Value" || n == "Key") && strings.Contains(t, "Iterator")) {
+				return t + "." + n
+			}
+		} else if c := x.Call.StaticCallee(); c != nil {
+			n = c.String()
+			if strings.HasPrefix(n, "(github.com/cosmos/cosmos-sdk/store/prefix.Store).Get") {
+				return n
+			}
+		}
+	case *ssa.Slice:
+		return storeOwned(x.X, seen)
+	case *ssa.ChangeType:
+		return storeOwned(x.X, seen)
+	case *ssa.Phi:
+		for _, e := range x.Edges {
+			if r := storeOwned(e, seen); r != "" {
+				return r
+			}
+		}
+	}
+	return ""
 }
